@@ -212,16 +212,17 @@ func ruleLK1(c *Ctx) []Obligation {
 func (c *Ctx) lk1PhaseOrder() []Obligation {
 	o := Obligation{Rule: "LK-1", Key: "phase order: new.typeDefs ⊇ old.typeDefs", Verdict: VIOL,
 		Detail: "no loop over old.typeDefs that stores new.typeDefs[key] on every non-error path was found: the unchecked lookup in the translate phase can miss"}
+	// loops (anywhere in package asm) that store new.typeDefs[key] as their last statement, with
+	// the condition under which an entry is skipped ("" = none)
+	type loop struct {
+		rs     *ast.RangeStmt
+		filter string
+		neg    bool
+		fn     *types.Func
+	}
+	var loops []loop
 	c.eachFunc(pkgASM, func(p *packages.Package, fd *ast.FuncDecl, fn *types.Func) {
 		info := p.TypesInfo
-		// loops of this function that store new.typeDefs[key] as their last statement, with the
-		// condition under which an entry is skipped ("" = none)
-		type loop struct {
-			rs     *ast.RangeStmt
-			filter string
-			neg    bool
-		}
-		var loops []loop
 		ast.Inspect(fd.Body, func(n ast.Node) bool {
 			rs, ok := n.(*ast.RangeStmt)
 			if !ok || mapFieldName(info, rs.X) != "oldIndex.typeDefs" || rs.Key == nil {
@@ -241,7 +242,7 @@ func (c *Ctx) lk1PhaseOrder() []Obligation {
 			if !ok || mapFieldName(info, ix.X) != "newIndex.typeDefs" || exprString(ix.Index) != k {
 				return true
 			}
-			l := loop{rs: rs}
+			l := loop{rs: rs, fn: fn}
 			rest := body[:len(body)-1]
 			// one leading filter `if [init;] COND { continue }`
 			if len(rest) > 0 {
@@ -281,7 +282,10 @@ func (c *Ctx) lk1PhaseOrder() []Obligation {
 			}
 			return true
 		})
+	})
+	{
 		for i, l := range loops {
+			fn := l.fn
 			covered := l.filter == ""
 			how := "for every key of old.typeDefs"
 			for j, m := range loops {
@@ -296,7 +300,7 @@ func (c *Ctx) lk1PhaseOrder() []Obligation {
 				o.Detail = fmt.Sprintf("%s stores new.typeDefs[key] %s unless it returns an error", funcKey(fn), how)
 			}
 		}
-	})
+	}
 	return []Obligation{o}
 }
 
@@ -367,6 +371,15 @@ func ruleLK2(c *Ctx) []Obligation {
 					o.Verdict, o.Detail = EXEMPT, why
 					obs = append(obs, o)
 					continue
+				}
+				// a lookup helper that hands (value, ok) back: the test is the caller's; every call
+				// site must test the returned ok immediately and report the miss as an error
+				if guard == nil {
+					if how, ok := c.lookupResultReturned(info, fd, fn, as); ok {
+						o.Detail = how
+						obs = append(obs, o)
+						continue
+					}
 				}
 				switch {
 				case guard == nil:
@@ -823,4 +836,64 @@ func ruleNILMOD(c *Ctx) []Obligation {
 		})
 	})
 	return obs
+}
+
+// lookupResultReturned: the statement after the lookup `v, ok := m[k]` returns v and ok
+// among the function's results, and every call site of the function (in package asm)
+// assigns them and tests that ok at once with `if !ok { return …error… }`.
+func (c *Ctx) lookupResultReturned(info *types.Info, fd *ast.FuncDecl, fn *types.Func, as *ast.AssignStmt) (string, bool) {
+	if len(as.Lhs) != 2 {
+		return "", false
+	}
+	okObj := info.ObjectOf(as.Lhs[1].(*ast.Ident))
+	// index of ok among the results of some return statement
+	okIdx := -1
+	ast.Inspect(fd.Body, func(n ast.Node) bool {
+		if r, isRet := n.(*ast.ReturnStmt); isRet && r.Pos() > as.Pos() {
+			for i, e := range r.Results {
+				if id, isID := unparen(e).(*ast.Ident); isID && info.ObjectOf(id) == okObj {
+					okIdx = i
+				}
+			}
+		}
+		return true
+	})
+	if okIdx < 0 {
+		return "", false
+	}
+	sites, good := 0, 0
+	c.eachFunc(pkgASM, func(p *packages.Package, fd2 *ast.FuncDecl, _ *types.Func) {
+		var lists [][]ast.Stmt
+		ast.Inspect(fd2.Body, func(n ast.Node) bool {
+			switch n := n.(type) {
+			case *ast.BlockStmt:
+				lists = append(lists, n.List)
+			case *ast.CaseClause:
+				lists = append(lists, n.Body)
+			}
+			return true
+		})
+		for _, l := range lists {
+			for i, st := range l {
+				a2, isAs := st.(*ast.AssignStmt)
+				if !isAs || len(a2.Rhs) != 1 || okIdx >= len(a2.Lhs) {
+					continue
+				}
+				call, isCall := unparen(a2.Rhs[0]).(*ast.CallExpr)
+				if !isCall || calleeOf(p.TypesInfo, call) != fn {
+					continue
+				}
+				sites++
+				if i+1 < len(l) {
+					if is, isIf := l[i+1].(*ast.IfStmt); isIf && strings.ReplaceAll(exprString(is.Cond), " ", "") == "!"+exprString(a2.Lhs[okIdx]) && returnsError(p.TypesInfo, is.Body.List) {
+						good++
+					}
+				}
+			}
+		}
+	})
+	if sites > 0 && sites == good {
+		return fmt.Sprintf("(value, ok) handed back to %d call site(s), each: miss → error", sites), true
+	}
+	return "", false
 }
